@@ -499,3 +499,31 @@ m("benign-for-range-to-enumerate", "C18", "core/src/proof/multi_proof.rs",
   "    for i in 0..multi_proof.paths.len() {\n        let path = &multi_proof.paths[i];",
   "    for (i, _) in multi_proof.paths.iter().enumerate() {\n        let path = &multi_proof.paths[i];",
   None)
+
+# ---- C12 H1 hand-back integrity ----
+m("c12-handback-without-restoring-delta", "C12", "nomt/src/lib.rs",
+  "                Ok(Some(delta)) => {\n                    self.rollback_delta = Some(delta);\n                    return Ok(Some(self));",
+  "                Ok(Some(delta)) => {\n                    drop(delta);\n                    self.rollback_delta = None;\n                    return Ok(Some(self));",
+  "H1|FinishedSession::try_commit_nonblocking|hand-back-intact")
+m("c12-handback-after-taking-pages", "C12", "nomt/src/lib.rs",
+  "        let write_guard = self\n            .take_global_guard\n            .then(|| nomt.access_lock.try_write())\n            .flatten();\n        if write_guard.is_none() {\n            return Ok(Some(self));",
+  "        let witness = self.merkle_output.witness.take();\n        let write_guard = self\n            .take_global_guard\n            .then(|| nomt.access_lock.try_write())\n            .flatten();\n        if write_guard.is_none() {\n            return Ok(Some(self));\n        }\n        self.merkle_output.witness = witness;\n        if false {\n            return Ok(Some(self));",
+  "H1|FinishedSession::try_commit_nonblocking|hand-back-intact")
+m("benign-handback-restore-via-local", "C12", "nomt/src/lib.rs",
+  "                Ok(Some(delta)) => {\n                    self.rollback_delta = Some(delta);\n                    return Ok(Some(self));",
+  "                Ok(Some(delta)) => {\n                    let restored = Some(delta);\n                    self.rollback_delta = restored;\n                    let session = self;\n                    return Ok(Some(session));",
+  None)
+
+# ---- C09 M1 ownership of the in-memory rollback log ----
+m("c09-pop-recent-takes-oldest", "C09", "nomt/src/rollback/mod.rs",
+  "    fn pop_recent(&mut self) -> Option<(RecordId, Delta)> {\n        self.log.pop_back()",
+  "    fn pop_recent(&mut self) -> Option<(RecordId, Delta)> {\n        self.log.pop_front()",
+  "M1|rollback::InMemory|role=shrink-newest")
+m("c09-prune-drains-log", "C09", "nomt/src/rollback/mod.rs",
+  "    fn pop_oldest(&mut self) -> Option<(RecordId, Delta)> {\n        self.log.pop_front()",
+  "    fn pop_oldest(&mut self) -> Option<(RecordId, Delta)> {\n        self.log.drain(..1).next()",
+  "M1|rollback::InMemory::pop_oldest|method=drain")
+m("benign-total-len-via-iter", "C09", "nomt/src/rollback/mod.rs",
+  "    fn total_len(&self) -> usize {\n        self.log.len()",
+  "    fn total_len(&self) -> usize {\n        self.log.iter().count()",
+  None)
